@@ -204,9 +204,10 @@ Definition resize {A} (l : list A) (n : nat) (d : A) : list A :=
 (* set_max_height_allowed (recompute_heap.rs:194) *)
 Definition rch_set_max_height_allowed (new_max : Z) : M unit :=
   s <- get ;;
-  (* #[cfg(debug_assertions)] for i in new+1..len { assert!(queues.get(i).is_none()) } *)
-  (if debug s && bool_decide (new_max + 1 < zlen (rch_queues s)) then panic (PAssert 113) else ret tt) ;;;
-  modify (fun s => s <| rch_queues := resize (rch_queues s) (Z.to_nat new_max) [] |>) ;;;
+  (* #[cfg(debug_assertions)] the queues about to be removed must be empty *)
+  (if debug s && negb (forallb (fun q => bool_decide (q = [])) (drop (Z.to_nat (new_max + 1)) (rch_queues s)))
+   then panic (PAssert 113) else ret tt) ;;;
+  modify (fun s => s <| rch_queues := resize (rch_queues s) (Z.to_nat (new_max + 1)) [] |>) ;;;
   modify (fun s => s <| rch_lower := Z.min (rch_lower s) (zlen (rch_queues s) + 1) |>).
 
 (* ------------------------------------------------------------ adjust-heights heap (adjust_heights_heap.rs) *)
@@ -218,7 +219,7 @@ Definition ahh_set_max_height_allowed (new_max : Z) : M unit :=
   (if bool_decide (new_max < ahh_max_seen s) then panic PSetMaxBelowSeen else ret tt) ;;;
   dassert (s <- get ;; ret (bool_decide (ahh_len s = 0))) 114 ;;;
   dassert (s <- get ;; ret (forallb (fun q => bool_decide (q = [])) (ahh_queues s))) 115 ;;;
-  modify (fun s => s <| ahh_queues := resize (ahh_queues s) (Z.to_nat new_max) [] |>).
+  modify (fun s => s <| ahh_queues := resize (ahh_queues s) (Z.to_nat (new_max + 1)) [] |>).
 
 (* add_unless_mem (adjust_heights_heap.rs:49) *)
 Definition ahh_add_unless_mem (n : nid) : M unit :=
@@ -300,8 +301,7 @@ Definition ahh_visit (oc op child : nid) : M unit :=
       bd <- get_bind b ;;
       forM_ (b_created bd) (fun r =>
         rx <- get_node r ;;
-        (if n_live rx then ret tt else panic (PUnwrapNone 131)) ;;;   (* rnode_weak.upgrade().unwrap() *)
-        if is_necessary rx then ensure_height_requirement oc op child r else ret tt)
+        if n_live rx && is_necessary rx then ensure_height_requirement oc op child r else ret tt)
   | _ => ret tt
   end.
 
@@ -505,6 +505,11 @@ with became_unnecessary (fuel : nat) (n : nid) : M unit :=
     maybe_handle_after_stabilisation n ;;;
     set_height n (-1) ;;;
     remove_children f n ;;;
+    x <- get_node n ;;
+    (match node_kind x with
+     | Some (KMapRef _ _) => upd_node n (fun x => x <| n_mapref_did_change := true |>)
+     | _ => ret tt
+     end) ;;;
     dassert (x <- get_node n ;; s <- get ;; ret (negb (needs_to_be_computed s x))) 203 ;;;
     x <- get_node n ;;
     if in_rch x then rch_remove n else ret tt
@@ -760,17 +765,21 @@ Definition parent_iter_can_recompute_now (parent child : nid) : M bool :=
   match node_kind p with
   | None => ret false
   | Some k =>
+    (* the scope's lhs-change node must have left the heap: scope height < min_height *)
+    let settled (h : Z) : M bool :=
+      if bool_decide (h < n_height c) then mh <- rch_min_height ;; ret (bool_decide (h < mh))
+      else ret false in
     crn <- match k with
            | KConst _ | KVar _ => panic (PAssert 310)
            | KFold _ _ _ => ret false
            | KMap _ cs =>
                if bool_decide (length cs = 1%nat) then
-                 sh <- scope_height (n_created_in p) ;; ret (bool_decide (sh < n_height c))
+                 sh <- scope_height (n_created_in p) ;; settled sh
                else ret false
            | KBindLhs _ | KMapRef _ _ | KMapWithOld _ _ =>
-               sh <- scope_height (n_created_in p) ;; ret (bool_decide (sh < n_height c))
+               sh <- scope_height (n_created_in p) ;; settled sh
            | KBindMain _ lc =>
-               l <- get_node lc ;; ret (bool_decide (n_height l < n_height c))
+               l <- get_node lc ;; settled (n_height l)
            end ;;
     ok <- (if crn : bool then ret true
            else mh <- rch_min_height ;; ret (bool_decide (n_height p <= mh))) ;;
